@@ -307,7 +307,7 @@ impl<'a, T: RelationToQueryTranslator> Visitor<'a, ast::Query> for FromRelationV
         // Add input query to CTEs
         input_ctes.push(
             self.translator.cte(
-                set.name().into(),
+                self.translator.identifier(&(set.name().into()))[0].clone(),
                 set.schema()
                     .iter()
                     .map(|field| self.translator.identifier(&(field.name().into()))[0].clone())
